@@ -50,7 +50,8 @@ immediate representation and the reference representation are observationally eq
 * `switch` without a matching arm is `null`.
 * `x[i] = e` evaluates `e`, then `i`, then reads `x`; its value is the value of `e`. A number index
   must satisfy `0 ≤ i < len` (floats truncate); a range index assigns every position of the clamped
-  range. Only lists are modelled as targets (maps by position are `unmodelled`).
+  range. On a map, `m[i] = (key, value)` replaces the entry at position `i` in place (all positions kept);
+  a key already used by another entry is an error (class `index`); other targets are type errors.
 * `e[i]`: number index (no negatives; floats truncate) on list / tuple / string (one byte; strings
   with non-ASCII bytes are `unmodelled`) / map (→ `(key, value)`) / range with a start; range index =
   slice with both ends clamped (`KRange::indices`).
@@ -305,7 +306,20 @@ def fillRange : List Val → Nat → Nat → Nat → Val → List Val
   | x :: xs, pos, s, e, v =>
     (if s ≤ pos ∧ pos < e then v else x) :: fillRange xs (pos + 1) s e v
 
-/-- `run_index_assign` on a list -/
+def setEntryAt : List (Val × Val) → Nat → Val × Val → List (Val × Val)
+  | [], _, _ => []
+  | _ :: es, 0, e => e :: es
+  | x :: es, k + 1, e => x :: setEntryAt es k e
+
+/-- position of the entry with key `k` (`IndexMap::get_index_of`) -/
+def keyIndex (k : List Nat) : List (Val × Val) → Nat → Option Nat
+  | [], _ => none
+  | (.str k', _) :: rest, pos => if k = k' then some pos else keyIndex k rest (pos + 1)
+  | _ :: rest, pos => keyIndex k rest (pos + 1)
+
+/-- `run_index_assign`: on a list (number or range index), on a map by position (`m[i] = (key,
+value)` replaces the entry at position `i`; the order of all entries is kept; a key that another
+entry already uses is an error, classed with the index errors) -/
 def indexAssignV (F : FloatOps) (c i v : Val) : Except Err Val :=
   match c, i with
   | .list xs, .num n =>
@@ -315,7 +329,19 @@ def indexAssignV (F : FloatOps) (c i v : Val) : Except Err Val :=
     let se := rangeIndices a b xs.length
     .ok (.list (fillRange xs 0 se.1 se.2 v))
   | .list _, _ => .error .type
-  | .map _, _ => .error .unmodelled
+  | .map es, .num n =>
+    -- replace the entry at position `k` by `(key, value)`, keeping every position
+    let k := (Num.toI64 F n).toInt.toNat
+    if Num.nonNegative F n && k < es.length then
+      match v with
+      | .tuple [.str key, val] =>
+        match keyIndex key es 0 with
+        | some j => if j = k then .ok (.map (setEntryAt es k (.str key, val))) else .error .index
+        | none => .ok (.map (setEntryAt es k (.str key, val)))
+      | .tuple [_, _] => .error .unmodelled      -- non-string keys are outside the model
+      | _ => .error .type                        -- "expected Tuple with 2 elements"
+    else .error .index
+  | .map _, _ => .error .type
   | _, _ => .error .type
 
 /-- `run_size` / `koto.size` -/
